@@ -426,7 +426,11 @@ func runC20(c *Ctx) {
 					case "1":
 						body = `{"level":1}`
 					case "true":
-						body = `not json at all`
+						// no JSON value at all: junk, nothing, or white space only
+						body = [...]string{`not json at all`, ``, " \n\t "}[op.chunk%3]
+						if body != `not json at all` {
+							c.R.Probe("JSON PUT with an empty or blank body")
+						}
 					}
 				}
 			}
